@@ -3,7 +3,8 @@
    generic tactic (case analysis on the build mode and on every conditional, then linear arithmetic with
    div/mod elimination), so any rewriting of the Rust expression that is still a correct guard is re-proved
    without touching this file, and a guard that is wrong makes `bounds_ok_sound` fail to compile. *)
-Require Import V.Base.MachineInt V.Generated.GenBounds.
+Require Import V.Base.MachineInt.
+Require Import V.Generated.GenBounds.
 From Coq Require Import ZifyBool.
 Open Scope Z_scope.
 
